@@ -48,6 +48,7 @@ class TestSolver : public SQuIDS {
   int slot;
   bool tdep;     // time-dependent term family (see spec/SolverFlow.tla)
   TestSolver() : slot(-1), tdep(false) {}
+  TestSolver(unsigned nx, unsigned nsun, unsigned nrhos, unsigned nsc, double ti) : SQuIDS(nx, nsun, nrhos, nsc, ti), slot(-1), tdep(false) {}   // the sizing constructor of the library
   TestSolver(TestSolver&& o) : SQuIDS(std::move(o)), slot(-1), tdep(o.tdep) {}
   TestSolver& operator=(TestSolver&& o) { tdep = o.tdep; SQuIDS::operator=(std::move(o)); return *this; }
   SU_vector diag(const std::vector<double>& dg) const {
@@ -182,16 +183,19 @@ int main() {
     std::string cmd; in >> cmd;
     int o = 0;
     try {
-      if (cmd == "NEW" || cmd == "INI") {
+      if (cmd == "NEW" || cmd == "INI" || cmd == "NEWC") {
         unsigned nx, nsun, nrhos, nsc; long t04;
         in >> o >> nx >> nsun >> nrhos >> nsc >> t04;
         if (cmd == "NEW") { new (slots[o - 1]) TestSolver(); live[o - 1] = true; S(o - 1).slot = o;
           S(o - 1).Set_rel_error(1e-10); S(o - 1).Set_abs_error(1e-10); S(o - 1).Set_h(1e-3); }
-        TestSolver& s = S(o - 1);
         ini_cache_clear = false;                 // set by the hook inside ini()
-        s.ini(nx, nsun, nrhos, nsc, t04 / 4.0);
+        if (cmd == "NEWC") {     // the same through SQuIDS(nx,dim,nrho,nscalar,ti) instead of default construction + ini()
+          new (slots[o - 1]) TestSolver(nx, nsun, nrhos, nsc, t04 / 4.0); live[o - 1] = true; S(o - 1).slot = o;
+          S(o - 1).Set_rel_error(1e-10); S(o - 1).Set_abs_error(1e-10); S(o - 1).Set_h(1e-3); }
+        TestSolver& s = S(o - 1);
+        if (cmd != "NEWC") s.ini(nx, nsun, nrhos, nsc, t04 / 4.0);
         s.fill_initial();
-        printf("{\"e\":\"Ini\",\"o\":%d,\"sys\":%d,\"eact\":%d,\"nx\":%u,\"nrhos\":%u,\"nsc\":%u,\"t4\":%ld,\"fresh\":%s,\"cacheclear\":%s}\n", o, aid(s.state_ptr()), aid(s.estate_ptr()), nx, nrhos, nsc, t04, cmd == "NEW" ? "true" : "false", ini_cache_clear ? "true" : "false");
+        printf("{\"e\":\"Ini\",\"o\":%d,\"sys\":%d,\"eact\":%d,\"nx\":%u,\"nrhos\":%u,\"nsc\":%u,\"t4\":%ld,\"fresh\":%s,\"cacheclear\":%s}\n", o, aid(s.state_ptr()), aid(s.estate_ptr()), nx, nrhos, nsc, t04, cmd != "INI" ? "true" : "false", ini_cache_clear ? "true" : "false");
       } else if (cmd == "DESTROY") { in >> o; S(o - 1).~TestSolver(); live[o - 1] = false; printf("{\"e\":\"Destroy\",\"o\":%d}\n", o);
       } else if (cmd == "SW") { int k, b; in >> o >> k >> b; TestSolver& s = S(o - 1);
         switch (k) { case 1: s.Set_CoherentRhoTerms(b); break; case 2: s.Set_NonCoherentRhoTerms(b); break; case 3: s.Set_OtherRhoTerms(b); break;
